@@ -31,8 +31,9 @@ const (
 	SizeofHOBGenericHeader = 8
 	// SizeofHOBGUID is the size of the GUID HOB header prior to associated data.
 	SizeofHOBGUID = SizeofHOBGenericHeader + 16
-	// MaxGUIDHOBDataSize is the maximum size of an EFI_HOB_GUID_TYPE's associated data.
-	MaxGUIDHOBDataSize = 0x10000 - SizeofHOBGUID
+	// MaxGUIDHOBDataSize is the maximum size of an EFI_HOB_GUID_TYPE's associated data: HobLength is
+	// a uint16 and HOBs are 8-byte aligned, so the largest HOB is 0xFFF8 bytes long.
+	MaxGUIDHOBDataSize = 0xFFF8 - SizeofHOBGUID
 )
 
 // EFIResourceType is an enum type for resource descriptors.
